@@ -306,85 +306,152 @@ Section WalkTotal.
       apply C. apply in_map. exact Hc.
   Qed.
 
-  Lemma walk_ok : forall k n, sub n R -> fits R k n -> leaf_plain n = true -> (k <= unsafe_fuel)%nat ->
+  (* what is proved of walk, by induction on the depth k of the graph below the node *)
+  Definition walk_spec (k : nat) : Prop :=
+    forall n, sub n R -> fits R k n -> leaf_plain n = true -> (k <= unsafe_fuel)%nat ->
     forall fuel path name level last, (k <= fuel)%nat -> harmless R path n ->
       WOK level (walk E T skipped R fuel path name level last n)
       /\ (forall f p, (k <= f)%nat -> harmless R p n -> unsafe_g E T R f p n = Ok [] ->
             Forall safe_row (fst (walk E T skipped R fuel path name level last n))).
-  Proof.
-    induction k as [|k IH]; intros n Hs Hf Hl Hku fuel path name level last Hle Hp; [destruct Hf|].
-    destruct fuel as [|fuel]; [lia|]. pose proof Hf as Hf0. destruct n as [h subs|sl i|sl l]; cbn [fits] in Hf.
-    - (* a node *)
+
+  (* walk on a node, one unfolding *)
+  Definition descend_of (fuel : nat) (path : list hkey) (level : nat) (h : hdr) (subs' : list node) : stream :=
+    if twice_on_path h path then s_err ERecursion else
+    s_concat (fun p => walk E T skipped R fuel (push_path h path) (slot_key (node_slot (fst p))) (S level) (snd p) (fst p))
+             (combine subs' (last_flags subs')).
+  Definition kids_of (fuel : nat) (path : list hkey) (level : nat) (h : hdr) (subs : list node) : stream :=
+    if is_skipped E skipped h then s_ok [] else
+    match h_kind h with
+    | KDict =>
+        match subs with
+        | kt :: rest =>
+            let kt' := match kt with
+                       | Ref _ id => match find_id id R with Some t => t | None => kt end
+                       | _ => kt
+                       end in
+            match kt' with
+            | Node hk _ =>
+                match h_kind hk with
+                | KList => s_lift (unsafe E T R kt')
+                             (fun uk => match uk with [] => descend_of fuel path level h rest | _ => descend_of fuel path level h subs end)
+                | _ => descend_of fuel path level h subs
+                end
+            | _ => descend_of fuel path level h subs
+            end
+        | [] => s_err EKey
+        end
+    | _ => descend_of fuel path level h subs
+    end.
+  Lemma walk_node_eq fuel path name level last h subs :
+    walk E T skipped R (S fuel) path name level last (Node h subs)
+    = s_lift (node_format h) (fun val =>
+      s_lift (self_safe E T h) (fun ss =>
+      s_lift (match h_kind h with KJson => Ok [] | _ => unsafe E T R (Node h subs) end) (fun u =>
+      s_cons {| r_level := level; r_key := name; r_val := val; r_self_safe := ss;
+                r_safe := match u with [] => true | _ => false end; r_last := last |}
+             (kids_of fuel path level h subs)))).
+  Proof. reflexivity. Qed.
+
+  Section Step.
+    Variable k : nat.
+    Hypothesis IH : walk_spec k.
+    Variables (h : hdr) (subs : list node).
+    Hypothesis Hs : sub (Node h subs) R.
+    Hypothesis Hf : fits R (S k) (Node h subs).
+    Hypothesis Hku : (S k <= unsafe_fuel)%nat.
+    Variables (fuel : nat) (path : list hkey) (level : nat).
+    Hypothesis Hle : (k <= fuel)%nat.
+    Hypothesis Hp : harmless R path (Node h subs).
+
+    Definition clean_below (st : stream) : Prop :=
+      forall f p, (S k <= f)%nat -> harmless R p (Node h subs) -> unsafe_g E T R f p (Node h subs) = Ok [] -> Forall safe_row (fst st).
+
+    Lemma descend_ok : h_kind h <> KSlice -> forall subs', incl subs' subs ->
+      WOK (S level) (descend_of fuel path level h subs') /\ clean_below (descend_of fuel path level h subs').
+    Proof.
+      intros Hk subs' Hincl. pose proof (Hnice h subs Hs) as Hn. unfold descend_of. rewrite (harmless_not_twice R path h subs Hp).
+      pose proof (nice_unskipped _ _ Hn Hk) as Hlp. rewrite forallb_forall in Hlp.
+      pose proof Hf as Hf1. cbn [fits] in Hf1. rewrite Forall_forall in Hf1.
+      assert (Hch : forall pr, In pr (combine subs' (last_flags subs')) -> In (fst pr) subs).
+      { intros [c b] Hpr. apply Hincl. eapply in_combine_l; eauto. }
+      split.
+      - apply WOK_concat. intros pr Hpr. pose proof (Hch pr Hpr) as Hc.
+        apply (IH (fst pr)); [eapply sub_child; eauto|apply Hf1; exact Hc|apply Hlp; exact Hc|lia|lia|eapply harmless_push; eauto].
+      - intros f p Hfk Hpp Hu. apply safe_concat. intros pr Hpr. pose proof (Hch pr Hpr) as Hc.
+        destruct (node_clean (S k) h subs f p Hs Hf Hfk Hpp Hk Hu (fst pr) Hc) as [f' [-> Hcu]].
+        eapply (IH (fst pr)); [eapply sub_child; eauto|apply Hf1; exact Hc|apply Hlp; exact Hc|lia|lia|eapply harmless_push; eauto| | |exact Hcu];
+          [lia|eapply harmless_push; eauto].
+    Qed.
+
+    Lemma kids_ok : WOK (S level) (kids_of fuel path level h subs) /\ clean_below (kids_of fuel path level h subs).
+    Proof.
+      pose proof (Hnice h subs Hs) as Hn. unfold kids_of.
+      destruct (is_skipped E skipped h) eqn:SK; [split; [split; [reflexivity|constructor]|intros f p _ _ _; constructor]|].
+      assert (Hk : h_kind h <> KSlice) by (intros K; rewrite (slice_skipped _ _ Hn K) in SK; discriminate SK).
+      pose proof (descend_ok Hk) as Hdesc.
+      destruct (kind_eqb (h_kind h) KDict) eqn:KD.
+      2:{ destruct (h_kind h); try discriminate KD; exact (Hdesc subs (incl_refl _)). }
+      assert (K : h_kind h = KDict) by (destruct (h_kind h); try discriminate KD; reflexivity). rewrite K.
+      destruct subs as [|kt rest] eqn:Esubs; [exfalso; eapply nice_dict; eauto|].
+      assert (Hrest : incl rest (kt :: rest)) by (intros x Hx; right; exact Hx).
+      cbv zeta.
+      set (kt' := match kt with Ref _ id => match find_id id R with Some t => t | None => kt end | _ => kt end).
+      assert (Hkt' : forall hk sk, kt' = Node hk sk -> exists uk, unsafe E T R kt' = Ok uk).
+      { intros hk sk Ekt. pose proof Hf as Hf1. cbn [fits] in Hf1. rewrite Forall_forall in Hf1. pose proof (Hf1 kt (or_introl eq_refl)) as Hfk.
+        assert (Hskt : sub kt R) by (eapply sub_child; [exact Hs|left; reflexivity]).
+        unfold kt' in *. destruct kt as [hk0 sk0|slk idk|slk lk].
+        - apply (unsafe_total E T R Hnice k); [exact Hskt|exact Hfk|reflexivity|lia].
+        - destruct k as [|k']; [destruct Hfk|]. cbn [fits] in Hfk. destruct Hfk as [t [Ht Hft]]. rewrite Ht in *.
+          apply (unsafe_total E T R Hnice k'); [eapply find_id_sub; eauto|exact Hft|rewrite Ekt; reflexivity|lia].
+        - discriminate Ekt. }
+      destruct kt' as [hk sk|slk idk|slk lk] eqn:Ekt; try exact (Hdesc (kt :: rest) (incl_refl _)).
+      destruct (kind_eqb (h_kind hk) KList) eqn:KL.
+      2:{ destruct (h_kind hk); try discriminate KL; exact (Hdesc (kt :: rest) (incl_refl _)). }
+      assert (K2 : h_kind hk = KList) by (destruct (h_kind hk); try discriminate KL; reflexivity). rewrite K2.
+      destruct (Hkt' hk sk eq_refl) as [uk ->]. cbn [s_lift].
+      destruct uk; [exact (Hdesc rest Hrest)|exact (Hdesc (kt :: rest) (incl_refl _))].
+    Qed.
+
+    Lemma node_ok name last :
+      WOK level (walk E T skipped R (S fuel) path name level last (Node h subs))
+      /\ (forall f p, (S k <= f)%nat -> harmless R p (Node h subs) -> unsafe_g E T R f p (Node h subs) = Ok [] ->
+            Forall safe_row (fst (walk E T skipped R (S fuel) path name level last (Node h subs)))).
+    Proof.
       pose proof (Hnice h subs Hs) as Hn.
       destruct (node_format_ok _ _ Hn) as [val NF]. destruct (self_safe_ok E T h subs Hn) as [ss SS].
-      assert (U : exists u, (match h_kind h with KJson => Ok [] | _ => unsafe E T R (Node h subs) end) = Ok u
-                            /\ (u = [] -> h_kind h = KJson \/ unsafe_g E T R unsafe_fuel [] (Node h subs) = Ok [])).
-      { destruct (unsafe_total E T R Hnice (S k) (Node h subs) Hs Hf0 eq_refl unsafe_fuel [] Hku) as [u Hu].
-        destruct (kind_eqb (h_kind h) KJson) eqn:KJ.
-        - assert (K : h_kind h = KJson) by (destruct (h_kind h); try discriminate KJ; reflexivity). rewrite K. exists []. auto.
-        - exists u. split; [unfold unsafe; rewrite Hu; destruct (h_kind h); try reflexivity; discriminate KJ|].
-          intros ->. right. exact Hu. }
-      destruct U as [u [HU Hu0]].
-      cbn [walk]. rewrite NF. cbn [s_lift]. rewrite SS. cbn [s_lift]. rewrite HU. cbn [s_lift].
-      set (g := fun p : node * bool => walk E T skipped R fuel (push_path h path) (slot_key (node_slot (fst p))) (S level) (snd p) (fst p)).
-      (* descending into (a sublist of) the children *)
-      assert (Hdesc : h_kind h <> KSlice -> forall subs', incl subs' subs ->
-                WOK (S level) (if twice_on_path h path then s_err ERecursion else s_concat g (combine subs' (last_flags subs')))
-                /\ (forall f p, (S k <= f)%nat -> harmless R p (Node h subs) -> unsafe_g E T R f p (Node h subs) = Ok [] ->
-                      Forall safe_row (fst (if twice_on_path h path then s_err ERecursion else s_concat g (combine subs' (last_flags subs')))))).
-      { intros Hk subs' Hincl. rewrite (harmless_not_twice R path h subs Hp).
-        pose proof (nice_unskipped _ _ Hn Hk) as Hlp. rewrite forallb_forall in Hlp. rewrite Forall_forall in Hf.
-        assert (Hch : forall pr, In pr (combine subs' (last_flags subs')) -> In (fst pr) subs).
-        { intros [c b] Hpr. apply Hincl. eapply in_combine_l; eauto. }
+      destruct (unsafe_total E T R Hnice (S k) (Node h subs) Hs Hf eq_refl unsafe_fuel [] Hku) as [u0 Hu0].
+      destruct kids_ok as [[HK1 HK2] HK3].
+      rewrite walk_node_eq, NF. cbn [s_lift]. rewrite SS. cbn [s_lift].
+      destruct (kind_eqb (h_kind h) KJson) eqn:KJ.
+      - assert (K : h_kind h = KJson) by (destruct (h_kind h); try discriminate KJ; reflexivity). rewrite K. cbn [s_lift].
+        assert (Hnil : fst (kids_of fuel path level h subs) = []).
+        { destruct (nice_json _ _ Hn K) as [-> _]. unfold kids_of. destruct (is_skipped E skipped h); [reflexivity|].
+          rewrite K. unfold descend_of. rewrite (harmless_not_twice R path h [] Hp). reflexivity. }
         split.
-        - apply WOK_concat. intros pr Hpr. pose proof (Hch pr Hpr) as Hc. unfold g.
-          apply (IH (fst pr)); [eapply sub_child; eauto|apply Hf; exact Hc|apply Hlp; exact Hc|lia|lia|eapply harmless_push; eauto].
-        - intros f p Hfk Hpp Hu. apply safe_concat. intros pr Hpr. pose proof (Hch pr Hpr) as Hc. unfold g.
-          destruct (node_clean (S k) h subs f p Hs Hf0 Hfk Hpp Hk Hu (fst pr) Hc) as [f' [-> Hcu]].
-          eapply (IH (fst pr)); [eapply sub_child; eauto|apply Hf; exact Hc|apply Hlp; exact Hc|lia|lia|eapply harmless_push; eauto| | |exact Hcu];
-            [lia|eapply harmless_push; eauto]. }
-      match goal with |- WOK level (s_cons ?r ?KIDS) /\ _ => set (r0 := r); set (kids := KIDS) end.
-      assert (HK : WOK (S level) kids
-                   /\ (forall f p, (S k <= f)%nat -> harmless R p (Node h subs) -> unsafe_g E T R f p (Node h subs) = Ok [] ->
-                         Forall safe_row (fst kids))).
-      { unfold kids. destruct (is_skipped E skipped h) eqn:SK; [split; [split; [reflexivity|constructor]|intros; constructor]|].
-        assert (Hk : h_kind h <> KSlice) by (intros K; rewrite (slice_skipped _ _ Hn K) in SK; discriminate SK).
-        specialize (Hdesc Hk).
-        destruct (h_kind h) eqn:K; try exact (Hdesc subs (incl_refl _)).
-        (* a DictNode: its key_types child may be hidden *)
-        destruct subs as [|kt rest]; [exfalso; eapply nice_dict; eauto; rewrite K; reflexivity|].
-        assert (Hrest : incl rest (kt :: rest)) by (intros x Hx; right; exact Hx).
-        match goal with |- context [match ?kt0 with Node hk _ => _ | _ => _ end] => set (kt' := kt0) end.
-        assert (Hkt' : forall hk sk, kt' = Node hk sk -> exists uk, unsafe E T R kt' = Ok uk).
-        { intros hk sk Ekt. rewrite Forall_forall in Hf. pose proof (Hf kt (or_introl eq_refl)) as Hfk.
-          assert (Hskt : sub kt R) by (eapply sub_child; [exact Hs|left; reflexivity]).
-          unfold kt' in *. destruct kt as [hk0 sk0|slk idk|slk lk].
-          - apply (unsafe_total E T R Hnice k); [exact Hskt|exact Hfk|reflexivity|lia].
-          - destruct k as [|k']; [destruct Hfk|]. cbn [fits] in Hfk. destruct Hfk as [t [Ht Hft]]. rewrite Ht in *.
-            apply (unsafe_total E T R Hnice k'); [eapply find_id_sub; eauto|exact Hft|rewrite Ekt; reflexivity|lia].
-          - discriminate Ekt. }
-        destruct kt' as [hk sk|slk idk|slk lk] eqn:Ekt; try exact (Hdesc (kt :: rest) (incl_refl _)).
-        destruct (h_kind hk); try exact (Hdesc (kt :: rest) (incl_refl _)).
-        destruct (Hkt' hk sk eq_refl) as [uk ->]. cbn [s_lift].
-        destruct uk; [exact (Hdesc rest Hrest)|exact (Hdesc (kt :: rest) (incl_refl _))]. }
-      destruct HK as [[HK1 HK2] HK3].
-      assert (Hsafe : forall f p, (S k <= f)%nat -> harmless R p (Node h subs) -> unsafe_g E T R f p (Node h subs) = Ok [] -> r_safe r0 = true).
-      { intros f p Hfk Hpp Hu. unfold r0. cbn [r_safe].
-        destruct (kind_eqb (h_kind h) KJson) eqn:KJ.
-        - assert (K : h_kind h = KJson) by (destruct (h_kind h); try discriminate KJ; reflexivity). rewrite K in HU. injection HU as <-. reflexivity.
-        - assert (HU' : unsafe E T R (Node h subs) = Ok u) by (destruct (h_kind h); try exact HU; discriminate KJ).
-          unfold unsafe in HU'. rewrite (unsafe_indep E T R ND (S k) (Node h subs) Hs Hf0 unsafe_fuel f [] p Hku Hfk (harmless_nil R _) Hpp) in HU'.
-          rewrite Hu in HU'. injection HU' as <-. reflexivity. }
-      split.
-      + split; [exact HK1|]. cbn [s_cons fst]. rewrite <- (app_nil_r (fst kids)). apply wf_tree; [reflexivity|exact HK2| |constructor].
-        intros Hr. unfold r0 in Hr. cbn [r_safe] in Hr. assert (u = []) by (destruct u; [reflexivity|discriminate Hr]). subst u.
-        destruct (Hu0 eq_refl) as [K|Hu1].
-        * destruct (nice_json _ _ Hn K) as [-> _]. unfold kids. destruct (is_skipped E skipped h); [constructor|].
-          rewrite K. rewrite (harmless_not_twice R path h [] Hp). constructor.
-        * apply (HK3 unsafe_fuel []); [exact Hku|apply harmless_nil|exact Hu1].
-      + intros f p Hfk Hpp Hu. cbn [s_cons fst]. constructor; [exact (Hsafe f p Hfk Hpp Hu)|exact (HK3 f p Hfk Hpp Hu)].
+        + split; [exact HK1|]. cbn [s_cons fst]. rewrite <- (app_nil_r (fst (kids_of fuel path level h subs))).
+          apply wf_tree; [reflexivity|exact HK2|intros _; rewrite Hnil; constructor|constructor].
+        + intros f p _ _ _. cbn [s_cons fst]. constructor; [reflexivity|rewrite Hnil; constructor].
+      - assert (HU : (match h_kind h with KJson => Ok [] | _ => unsafe E T R (Node h subs) end) = Ok u0)
+          by (unfold unsafe; rewrite Hu0; destruct (h_kind h); try reflexivity; discriminate KJ).
+        rewrite HU. cbn [s_lift].
+        split.
+        + split; [exact HK1|]. cbn [s_cons fst]. rewrite <- (app_nil_r (fst (kids_of fuel path level h subs))).
+          apply wf_tree; [reflexivity|exact HK2| |constructor].
+          cbn [r_safe]. intros Hr. assert (u0 = []) by (destruct u0; [reflexivity|discriminate Hr]). subst u0.
+          apply (HK3 unsafe_fuel []); [exact Hku|apply harmless_nil|exact Hu0].
+        + intros f p Hfk Hpp Hu. cbn [s_cons fst].
+          rewrite (unsafe_indep E T R ND (S k) (Node h subs) Hs Hf unsafe_fuel f [] p Hku Hfk (harmless_nil R _) Hpp) in Hu0.
+          rewrite Hu in Hu0. injection Hu0 as <-. constructor; [reflexivity|exact (HK3 f p Hfk Hpp Hu)].
+    Qed.
+  End Step.
+
+  Lemma walk_ok : forall k, walk_spec k.
+  Proof.
+    induction k as [|k IH]; intros n Hs Hf Hl Hku fuel path name level last Hle Hp; [destruct Hf|].
+    destruct fuel as [|fuel]; [lia|]. destruct n as [h subs|sl i|sl l].
+    - apply (node_ok k IH h subs Hs Hf Hku fuel path level ltac:(lia) Hp).
     - (* a reference: the memoised node, at the same level *)
-      destruct Hf as [t [Ht Hft]]. cbn [walk]. rewrite Ht.
+      cbn [fits] in Hf. destruct Hf as [t [Ht Hft]]. cbn [walk]. rewrite Ht.
       assert (Hlt : leaf_plain t = true) by (destruct (find_id_hid _ _ _ Ht) as [hd [subs [-> _]]]; reflexivity).
       destruct (IH t (find_id_sub _ _ _ Ht) Hft Hlt ltac:(lia) fuel path name level last ltac:(lia) (harmless_ref R sl i t path Ht Hp)) as [H1 H2].
       split; [exact H1|]. intros f p Hfk Hpp Hu. destruct f as [|f]; [lia|]. cbn [unsafe_g] in Hu. rewrite Ht in Hu.
@@ -393,3 +460,257 @@ Section WalkTotal.
       destruct l; try discriminate Hl; cbn [walk]; (split; [split; [reflexivity|constructor]|intros; constructor]).
   Qed.
 End WalkTotal.
+
+(* ================= every reference of a tree get_tree builds (from any JSON) points into the tree ================= *)
+Fixpoint refs (n : node) : list hkey :=
+  match n with Node _ subs => flat_map refs subs | Ref _ i => [i] | Leaf _ _ => [] end.
+
+(* the memo only grows, holds the target of every reference made, and grows by ids of the nodes built *)
+Definition rinv (m : memo) (ns : list node) (m' : memo) : Prop :=
+  (forall i, In i m -> In i m') /\ (forall i, In i (flat_map refs ns) -> In i m')
+  /\ (forall i, In i m' -> In i m \/ In i (flat_map ids ns)).
+
+Lemma rinv_nil m : rinv m [] m.
+Proof. repeat split; auto. intros i []. Qed.
+Lemma rinv_app m a m1 b m2 : rinv m a m1 -> rinv m1 b m2 -> rinv m (a ++ b) m2.
+Proof.
+  intros [A1 [A2 A3]] [B1 [B2 B3]]. unfold rinv. rewrite !flat_map_app. repeat split.
+  - auto.
+  - intros i Hi. apply in_app_or in Hi. destruct Hi as [Hi|Hi]; auto.
+  - intros i Hi. destruct (B3 i Hi) as [H|H]; [|right; apply in_or_app; auto].
+    destruct (A3 i H) as [H'|H']; [auto|right; apply in_or_app; auto].
+Qed.
+Lemma rinv_plain m ns m' n : refs n = [] -> ids n = [] -> rinv m ns m' -> rinv m (n :: ns) m'.
+Proof. intros H1 H2 [A [B C]]. unfold rinv. cbn [flat_map]. rewrite H1, H2. cbn [app]. auto. Qed.
+Lemma rinv_cons m n m1 ns m2 : rinv m [n] m1 -> rinv m1 ns m2 -> rinv m (n :: ns) m2.
+Proof. intros H1 H2. change (n :: ns) with ([n] ++ ns). eapply rinv_app; eauto. Qed.
+Lemma rinv_or_empty m ns m' name l : rinv m ns m' -> rinv m (or_empty name l ns) m'.
+Proof. destruct ns; [intros H; apply rinv_plain; [reflexivity|reflexivity|exact H]|auto]. Qed.
+Lemma rinv_set_aux m h a subs m' : rinv m [Node h subs] m' -> rinv m [Node (set_aux h a) subs] m'.
+Proof. intros H. exact H. Qed.
+
+Lemma rnode sl k tag extra b m j aux h m0 subs m' :
+  node_init sl k tag extra b m j aux = Ok (h, m0) -> rinv m0 subs m' -> rinv m [Node h subs] m'.
+Proof.
+  unfold node_init. intros H [C1 [C2 C3]].
+  destruct (jindex j (K "__class__")) as [cc|]; cbn [bind] in H; [|discriminate H].
+  destruct (jindex j (K "__module__")) as [cm|]; cbn [bind] in H; [|discriminate H].
+  destruct (jget j (K "__id__")) as [sid|]; cbn [bind] in H; [|discriminate H].
+  destruct (jtruthy sid && b).
+  - destruct (jhash sid) as [hk|]; cbn [bind] in H; [|discriminate H]. injection H as <- <-.
+    unfold rinv. cbn [flat_map refs ids own_ids h_id]. rewrite !app_nil_r. repeat split.
+    + intros i Hi. apply C1. right. exact Hi.
+    + exact C2.
+    + intros i Hi. destruct (C3 i Hi) as [[<-|H]|H]; [right; left; reflexivity|left; exact H|right; right; exact H].
+  - injection H as <- <-. unfold rinv. cbn [flat_map refs ids own_ids h_id]. rewrite !app_nil_r. cbn [app]. auto.
+Qed.
+
+Section Refs.
+  Variable E : env.
+  Variable rec : list pstr -> slot -> memo -> json -> res (node * memo).
+  Hypothesis Hrec : forall extra sl m j t m', rec extra sl m j = Ok (t, m') -> rinv m [t] m'.
+
+  Lemma sub_list_r extra name : forall js m ns m', sub_list rec extra name m js = Ok (ns, m') -> rinv m ns m'.
+  Proof.
+    induction js as [|j js IH]; intros m ns m' H; cbn [sub_list] in H.
+    - injection H as <- <-. apply rinv_nil.
+    - destruct (rec extra (SElem name) m j) as [[n m1]|] eqn:Rq; cbn [bind] in H; [|discriminate H].
+      destruct (sub_list rec extra name m1 js) as [[ns' m2]|] eqn:S; cbn [bind] in H; [|discriminate H].
+      injection H as <- <-. eapply rinv_cons; [eapply Hrec; eauto|eapply IH; eauto].
+  Qed.
+  Lemma sub_dict_r extra name : forall kvs m ns m', sub_dict rec extra name m kvs = Ok (ns, m') -> rinv m ns m'.
+  Proof.
+    induction kvs as [|[k j] kvs IH]; intros m ns m' H; cbn [sub_dict] in H.
+    - injection H as <- <-. apply rinv_nil.
+    - destruct (rec extra (SKey name k) m j) as [[n m1]|] eqn:Rq; cbn [bind] in H; [|discriminate H].
+      destruct (sub_dict rec extra name m1 kvs) as [[ns' m2]|] eqn:S; cbn [bind] in H; [|discriminate H].
+      injection H as <- <-. eapply rinv_cons; [eapply Hrec; eauto|eapply IH; eauto].
+  Qed.
+  Lemma content_child_r extra j key slotname m n m' : content_child rec extra j key slotname m = Ok (n, m') -> rinv m [n] m'.
+  Proof.
+    unfold content_child. intros H.
+    destruct (jindex j (K "content")) as [c|]; cbn [bind] in H; [|discriminate H].
+    destruct (jindex c key) as [v|]; cbn [bind] in H; [|discriminate H]. eapply Hrec; eauto.
+  Qed.
+
+  Ltac brk H :=
+    repeat (cbn [bind] in H;
+      match type of H with
+      | bind ?r _ = Ok _ => let X := fresh "X" in destruct r eqn:X; cbn [bind] in H; [|discriminate H]
+      | (let (_, _) := ?p in _) = Ok _ => destruct p
+      | (match ?x with _ => _ end) = Ok _ => let X := fresh "X" in destruct x eqn:X; try discriminate H
+      | (if ?b then _ else _) = Ok _ => let X := fresh "X" in destruct b eqn:X; try discriminate H
+      end).
+  Ltac r_tac :=
+    repeat first
+      [ apply rinv_nil
+      | apply rinv_or_empty
+      | match goal with
+        | |- rinv _ (Leaf _ _ :: _) _ => apply rinv_plain; [reflexivity|reflexivity|]
+        | |- rinv _ (Node _ [] :: _) _ => apply rinv_plain; [reflexivity|reflexivity|]
+        | |- rinv _ (_ ++ [_]) _ => eapply rinv_app
+        | H : rec _ _ ?m _ = Ok (?n, _) |- rinv ?m (?n :: _) _ => eapply rinv_cons; [exact (Hrec _ _ _ _ _ _ H)|]
+        | H : content_child _ _ _ _ _ ?m = Ok (?n, _) |- rinv ?m (?n :: _) _ => eapply rinv_cons; [exact (content_child_r _ _ _ _ _ _ _ H)|]
+        | H : sub_list _ _ _ ?m _ = Ok (?ns, _) |- rinv ?m ?ns _ => exact (sub_list_r _ _ _ _ _ _ H)
+        | H : sub_dict _ _ _ ?m _ = Ok (?ns, _) |- rinv ?m ?ns _ => exact (sub_dict_r _ _ _ _ _ _ H)
+        end ].
+
+  Lemma build_r sl extra tag k m j t m' : build E rec sl extra tag k m j = Ok (t, m') -> rinv m [t] m'.
+  Proof.
+    intros H. destruct k; unfold build in H; cbv beta iota zeta in H; brk H;
+      try (injection H as <- <-);
+      try apply rinv_set_aux;
+      (eapply rnode; [eassumption|r_tac]).
+  Qed.
+End Refs.
+
+Theorem get_tree_r E proto : forall fuel extra sl m j t m',
+  get_tree fuel E proto extra sl m j = Ok (t, m') -> rinv m [t] m'.
+Proof.
+  induction fuel as [|fuel IH]; intros extra sl m j t m' H; [discriminate H|].
+  cbn [get_tree] in H.
+  destruct (jget j (K "__id__")) as [sid|]; cbn [bind] in H; [|discriminate H].
+  destruct (jhash sid) as [hk|]; cbn [bind] in H; [|discriminate H].
+  destruct (memo_mem hk m) eqn:MM.
+  { injection H as <- <-. unfold rinv. cbn [flat_map refs ids app]. repeat split; auto.
+    intros i [<-|[]]. apply memo_mem_In. exact MM. }
+  destruct (jindex j (K "__loader__")) as [loader|]; cbn [bind] in H; [|discriminate H].
+  destruct (dispatch (e_reg E) (e_cur E) loader proto) as [[tag|]|]; cbn [bind] in H; try discriminate H.
+  - destruct (kind_of_class tag) as [k|]; [|discriminate H].
+    eapply build_r; [|exact H]. intros; eapply IH; eauto.
+  - destruct (jindex j (K "__module__")); cbn [bind] in H; [|discriminate H].
+    destruct (jindex j (K "__class__")); cbn [bind] in H; discriminate H.
+Qed.
+
+Lemma refs_sub sl i : forall n, sub (Ref sl i) n -> In i (refs n).
+Proof.
+  intros n H. remember (Ref sl i) as x eqn:Ex. induction H as [|h subs y Hy Hs IH]; [subst; left; reflexivity|].
+  cbn [refs]. apply in_flat_map. exists y. split; [exact Hy|apply IH; exact Ex].
+Qed.
+
+Theorem root_refs_resolve E schema t m : root_tree E schema = Ok (t, m) ->
+  forall sl i, sub (Ref sl i) t -> exists x, find_id i t = Some x.
+Proof.
+  unfold root_tree. destruct (jindex schema (K "protocol")); cbn [bind]; [|intros X; discriminate X].
+  intros H sl i Hs. apply get_tree_r in H. destruct H as [_ [H2 H3]].
+  apply find_id_exists. cbn [flat_map] in H2, H3. rewrite app_nil_r in H2, H3.
+  destruct (H3 i (H2 i (refs_sub sl i t Hs))) as [[]|Hi]. exact Hi.
+Qed.
+
+Lemma walk_node_nonempty E T skipped R fuel path name level last h subs :
+  snd (walk E T skipped R fuel path name level last (Node h subs)) = None ->
+  fst (walk E T skipped R fuel path name level last (Node h subs)) <> [].
+Proof.
+  destruct fuel as [|fuel]; [cbn; discriminate|]. cbn [walk]. unfold s_lift.
+  repeat match goal with |- snd (match ?x with Ok _ => _ | Raise _ => _ end) = None -> _ => destruct x; [|cbn; discriminate] end.
+  intros _. cbn [s_cons fst]. discriminate.
+Qed.
+
+(* ================= _traverse_tree on a pre-order forest ================= *)
+Fixpoint lvl_ok (sh : show_mode) (prev : nat) (rows : list row) : Prop :=
+  match rows with
+  | [] => True
+  | r :: rs => if visible sh r then (r_level r <= S prev)%nat /\ lvl_ok sh (r_level r) rs else lvl_ok sh prev rs
+  end.
+Fixpoint last_vis (sh : show_mode) (prev : nat) (rows : list row) : nat :=
+  match rows with
+  | [] => prev
+  | r :: rs => if visible sh r then last_vis sh (r_level r) rs else last_vis sh prev rs
+  end.
+
+Lemma traverse_lvl sh : forall rows prev, lvl_ok sh prev rows -> traverse sh prev rows None = Ok (filter (visible sh) rows).
+Proof.
+  induction rows as [|r rs IH]; intros prev H; [reflexivity|]. cbn [lvl_ok traverse filter] in *.
+  destruct (visible sh r); cbn [negb]; [|apply IH; exact H]. destruct H as [H1 H2].
+  replace (Nat.ltb (S prev) (r_level r)) with false by (symmetry; apply Nat.ltb_ge; exact H1).
+  rewrite (IH _ H2). reflexivity.
+Qed.
+
+Lemma lvl_ok_app sh : forall a prev b, lvl_ok sh prev a -> lvl_ok sh (last_vis sh prev a) b -> lvl_ok sh prev (a ++ b).
+Proof.
+  induction a as [|r a IH]; intros prev b Ha Hb; [exact Hb|]. cbn [app lvl_ok last_vis] in *.
+  destruct (visible sh r); [destruct Ha as [H1 H2]; split; [exact H1|apply IH; assumption]|apply IH; assumption].
+Qed.
+Lemma last_vis_app sh : forall a prev b, last_vis sh prev (a ++ b) = last_vis sh (last_vis sh prev a) b.
+Proof. induction a as [|r a IH]; intros prev b; [reflexivity|]. cbn [app last_vis]. destruct (visible sh r); apply IH. Qed.
+Lemma invisible_skip sh : forall a prev, Forall (fun x => visible sh x = false) a -> lvl_ok sh prev a /\ last_vis sh prev a = prev.
+Proof.
+  induction a as [|r a IH]; intros prev H; [split; [exact I|reflexivity]|]. inversion H as [|? ? Hr Ha]; subst.
+  cbn [lvl_ok last_vis]. rewrite Hr. apply IH. exact Ha.
+Qed.
+
+(* a hidden row is a fully safe row, and fully safe rows are hidden: holds of show = all and show = untrusted, not of show = trusted *)
+Definition sh_ok (sh : show_mode) : Prop :=
+  forall r, visible sh r = false -> r_safe r = true /\ forall x, r_safe x = true -> visible sh x = false.
+Lemma sh_ok_all : sh_ok ShowAll.
+Proof. intros r H. discriminate H. Qed.
+Lemma sh_ok_untrusted : sh_ok ShowUntrusted.
+Proof.
+  intros r H. cbn [visible] in H. apply negb_false_iff in H. split; [exact H|]. intros x Hx. cbn [visible]. rewrite Hx. reflexivity.
+Qed.
+
+Lemma forest_lvl sh : sh_ok sh -> forall L rows, wforest L rows -> forall prev, (L <= S prev)%nat ->
+  lvl_ok sh prev rows /\ (L <= S (last_vis sh prev rows))%nat.
+Proof.
+  intros Hsh L rows H. induction H as [L|L r kids rest Hl Hk IHk Hs Hr IHr]; intros prev Hp; [split; [exact I|exact Hp]|].
+  cbn [lvl_ok last_vis]. destruct (visible sh r) eqn:V.
+  - rewrite Hl. destruct (IHk L (le_n _)) as [K1 K2]. destruct (IHr (last_vis sh L kids) ltac:(lia)) as [R1 R2].
+    rewrite last_vis_app. split; [split; [exact Hp|apply lvl_ok_app; assumption]|exact R2].
+  - destruct (Hsh r V) as [Hsafe Hhide].
+    assert (Hinv : Forall (fun x => visible sh x = false) kids).
+    { eapply Forall_impl; [|exact (Hs Hsafe)]. intros x Hx. apply Hhide. exact Hx. }
+    destruct (invisible_skip sh kids prev Hinv) as [K1 K2]. destruct (IHr prev Hp) as [R1 R2].
+    rewrite last_vis_app, K2. split; [apply lvl_ok_app; [exact K1|rewrite K2; exact R1]|exact R2].
+Qed.
+
+Lemma traverse_all_forest sh st r rs : sh_ok sh -> WOK (r_level r) st -> fst st = r :: rs ->
+  traverse_all sh st = Ok (r :: filter (visible sh) rs).
+Proof.
+  intros Hsh [H1 H2] Hf. unfold traverse_all. rewrite Hf, H1. rewrite Hf in H2.
+  inversion H2 as [|L r' kids rest Hl Hk Hs Hr]; subst.
+  assert (Hlv : lvl_ok sh (r_level r) (kids ++ rest)).
+  { destruct (forest_lvl sh Hsh _ _ Hk (r_level r) (le_n _)) as [K1 K2].
+    apply lvl_ok_app; [exact K1|]. apply (forest_lvl sh Hsh _ _ Hr). lia. }
+  rewrite (traverse_lvl sh _ _ Hlv). reflexivity.
+Qed.
+
+(* ================= ranked trees (VisTotalPre.good) have bounded depth through references ================= *)
+Section GoodGraph.
+  Variable base : Z.
+  Variable Objs : pval -> Prop.
+  Hypothesis Ofun : forall a b, Objs a -> Objs b -> pid a = pid b -> a = b.
+  Hypothesis Oid : forall a, Objs a -> (0 < pid a < base)%Z.
+  Variable R : node.
+  Hypothesis Hres : forall sl i, sub (Ref sl i) R -> exists x, find_id i R = Some x.
+  Variable r0 : nat.
+  Hypothesis HR : good base Objs r0 R.
+
+  Lemma good_sub x n : sub x n -> forall r, good base Objs r n -> exists r', good base Objs r' x.
+  Proof.
+    induction 1 as [|h subs y Hy Hs IH]; intros r Hg; [eauto|].
+    inversion Hg as [| |r1 h1 subs1 w Hw Hi Hn Hnice Hall|r1 h1 subs1 z Hz Hi Hnice Hr1 Hall]; subst;
+      rewrite Forall_forall in Hall; eapply IH; apply Hall; exact Hy.
+  Qed.
+
+  Lemma good_nice h subs : sub (Node h subs) R -> nice h subs = true.
+  Proof. intros Hs. destruct (good_sub _ _ Hs _ HR) as [r' Hg]. inversion Hg; subst; assumption. Qed.
+
+  Lemma good_fits : forall k x, sub x R -> good base Objs k x -> fits R (2 * k + 1) x.
+  Proof.
+    induction k as [k IH] using lt_wf_ind. intros x Hs Hg. replace (2 * k + 1)%nat with (S (2 * k)) by lia.
+    inversion Hg as [r sl l|r sl w Hw Hn|r h subs w Hw Hi Hn Hnice Hall|r h subs z Hz Hi Hnice Hr1 Hall]; subst; cbn [fits].
+    - exact I.
+    - destruct (Hres sl _ Hs) as [t Ht]. exists t. split; [exact Ht|].
+      destruct (find_id_hid _ _ _ Ht) as [hd [subs [-> Hi]]]. pose proof (find_id_sub _ _ _ Ht) as Hst.
+      destruct (good_sub _ _ Hst _ HR) as [r' Hg']. pose proof (need_pos w) as Hnp.
+      inversion Hg' as [| |r1 h1 subs1 w' Hw' Hi' Hn' Hnice' Hall'|r1 h1 subs1 z Hz Hi' Hnice' Hr1 Hall']; subst.
+      + assert (Hk : key (pid w') = key (pid w)) by congruence. apply key_inj in Hk. assert (w' = w) by (apply Ofun; auto). subst w'.
+        replace (2 * k)%nat with (S (2 * k - 1)) by lia. cbn [fits]. rewrite Forall_forall in *. intros c Hc.
+        eapply fits_mono; [apply (IH (need w - 1)%nat); [lia|eapply sub_child; eauto|apply Hall'; exact Hc]|lia].
+      + assert (Hk : key z = key (pid w)) by congruence. apply key_inj in Hk. pose proof (Oid _ Hw). lia.
+    - pose proof (need_pos w) as Hnp. rewrite Forall_forall in *. intros c Hc.
+      eapply fits_mono; [apply (IH (need w - 1)%nat); [lia|eapply sub_child; eauto|apply Hall; exact Hc]|lia].
+    - rewrite Forall_forall in *. intros c Hc.
+      eapply fits_mono; [apply (IH (k - 1)%nat); [lia|eapply sub_child; eauto|apply Hall; exact Hc]|lia].
+  Qed.
+End GoodGraph.
